@@ -27,7 +27,7 @@ Constructs == {
     "var-chain", "var-self", "var-rho", "var-growth",
     "path-length", "path-junk", "points-length", "transform-list", "bearing-length",
     "siblings", "siblings-text", "attrs-many", "attr-long", "text-long", "comment-long",
-    "retry-chain", "retry-nested", "retry-nested-ws", "retry-siblings", "retry-nested-tail", "clip-cycle", "clip-chain", "var-chain-fwd", "ref-cycle", "surround-chain", "loop-count", "loop-nested-count", "for-list",
+    "retry-chain", "retry-nested", "retry-nested-ws", "retry-siblings", "retry-nested-tail", "clip-cycle", "clip-chain", "var-chain-fwd", "var-tree", "ref-cycle", "surround-chain", "loop-count", "loop-nested-count", "for-list",
     "xml-depth", "entity-like", "defaults-many", "class-many"}
 DepthClasses == IF Tier = "quick" THEN {1, 10, 99, 100, 101, 1000, 20000}
                 ELSE {1, 2, 10, 50, 99, 100, 101, 200, 1000, 5000, 20000, 100000}
